@@ -91,6 +91,9 @@ pub(crate) fn validate_submit(
 ) -> Option<SubmitResponse> {
     match &task_desc {
         JobTaskDescription::Array { ids, .. } => {
+            if let Some(id) = ids.find_duplicate() {
+                return Some(SubmitResponse::NonUniqueTaskId(JobTaskId::new(id)));
+            }
             if let Some(job) = job {
                 for id in ids.iter() {
                     let id = JobTaskId::new(id);
